@@ -155,7 +155,7 @@ func (p *Parser) discardLine() {
 	p.useWhitespace(significantNewline)
 	defer p.useWhitespace(defaultWhitespace)
 	// skip all non-newline tokens
-	for p.nextToken().typ != '\n' && p.nextToken().typ != scanner.EOF {
+	for tok := p.nextToken(); tok.typ != '\n' && tok.typ != scanner.EOF; tok = p.nextToken() {
 		_ = p.curr // fool the linter about the empty loop
 	}
 }
